@@ -124,9 +124,14 @@ fn level_lambda(sk: &Skeleton, level: usize) -> Cell {
             body.push(call("define", vec![sym(NAMES[i]), int((10 * (level + 1) + i) as i64)]));
         }
     }
+    // an internal procedure whose formals carry the three names: they are bound inside it only, the
+    // rest of this body must keep seeing the bindings described by the skeleton
+    let helper = format!("h{}", level + 1);
+    body.push(list(vec![sym("define"), list(vec![sym(&helper), sym("a"), sym("b"), sym("c")]), call("list", vec![sym("a"), sym("b"), sym("c")])]));
     for n in NAMES {
         body.push(rd(level, 0, n));
     }
+    body.push(call("rd", vec![quote(sym(&format!("H{}", level + 1))), call(&helper, vec![int(1), int(2), int(3)])]));
     for i in set_menu(sk.sets, 0) {
         body.push(setter(level, 0, NAMES[i]));
     }
